@@ -563,8 +563,6 @@ pub fn anim() -> Vec<Seed> {
 
 pub struct MpqSeed {
     pub seed: Seed,
-    /// (archive name, content) of the members
-    pub members: Vec<(String, Vec<u8>)>,
 }
 
 /// Archives made by the real `ArchiveBuilder` in `dir`.
@@ -595,7 +593,7 @@ pub fn mpq(dir: &std::path::Path) -> Vec<MpqSeed> {
         b.build(&p).expect("mpq build");
         let bytes = std::fs::read(&p).expect("read mpq");
         let _ = std::fs::remove_file(&p);
-        out.push(MpqSeed { seed: seed(name, "mpq", bytes), members: ms });
+        out.push(MpqSeed { seed: seed(name, "mpq", bytes) });
     }
     out
 }
